@@ -14,6 +14,7 @@
 //! part per API family: `buffer`, `sauce`, `bitfont`, `tdf`, `palette`.
 mod golden;
 mod mutate;
+mod textfield;
 
 use golden::*;
 use icy_engine::{BitFont, Buffer, Palette, SauceData, TheDrawFont};
@@ -27,6 +28,7 @@ use mutate::*;
 use serde::{Deserialize, Serialize};
 use std::path::Path;
 use std::sync::OnceLock;
+use textfield::{Format, TextCase};
 
 // ------------------------------------------------------------------------------------------------ targets
 
@@ -145,6 +147,8 @@ enum Src {
     Raw(Bytes),
     /// records of an IcyDraw container (wrapped into a minimal PNG)
     Chunks(Vec<Chunk>),
+    /// a valid file of the target's format generated around a text field (see textfield.rs)
+    Text(TextCase),
 }
 
 #[derive(Clone, Debug, Hash, Serialize, Deserialize)]
@@ -159,6 +163,43 @@ struct Case {
 
 fn target(c: &Case) -> &'static Target {
     &TARGETS[(c.target as usize).min(TARGETS.len() - 1)]
+}
+
+/// the text-carrying formats a target decodes, in slot order
+fn text_formats(t: &Target) -> Vec<Format> {
+    match t.kind {
+        Kind::Sauce => vec![Format::Sauce],
+        Kind::Tdf => vec![Format::Tdf],
+        Kind::Font => vec![],
+        Kind::Load | Kind::Import(_) => vec![match t.group {
+            G_PAL_ICE => Format::PalIce,
+            G_PAL_HEX => Format::PalHex,
+            G_PAL_PAL => Format::PalPal,
+            G_PAL_GPL => Format::PalGpl,
+            _ => Format::PalTxt,
+        }],
+        Kind::Ext if t.group == G_ICY => vec![Format::Icy],
+        // parsers that take ANSI control strings (the Avatar, PCBoard, Ctrl-A and Renegade parsers fall back to the ANSI parser)
+        Kind::Ext if matches!(t.emu, Some(EMU_ANSI | EMU_AVATAR | EMU_PCB | EMU_CTRLA | EMU_RENEGADE)) => vec![Format::Ansi, Format::Sauce],
+        Kind::Ext => vec![Format::Sauce],
+    }
+}
+
+/// (format, slot inside the format) of a text case for this target
+fn text_slot(t: &Target, c: &TextCase) -> Option<(Format, usize)> {
+    let fs = text_formats(t);
+    let total: usize = fs.iter().map(|f| textfield::slots(*f)).sum();
+    if total == 0 {
+        return None;
+    }
+    let mut s = c.slot as usize % total;
+    for f in fs {
+        if s < textfield::slots(f) {
+            return Some((f, s));
+        }
+        s -= textfield::slots(f);
+    }
+    None
 }
 
 fn golden_of(t: &Target, idx: u16) -> Option<(usize, &'static Golden)> {
@@ -193,6 +234,10 @@ fn materialise(c: &Case) -> Vec<u8> {
             Src::Golden(idx) => golden_of(t, *idx).map(|g| g.1.bytes.clone()).unwrap_or_default(),
             Src::Raw(b) => b.0.clone(),
             Src::Chunks(_) => unreachable!(),
+            Src::Text(tc) => match text_slot(t, tc) {
+                Some((f, slot)) => textfield::build(f, &TextCase { slot: slot as u8, ..tc.clone() }),
+                None => Vec::new(),
+            },
         },
     };
     for m in &c.muts {
@@ -352,6 +397,28 @@ fn minimize(c: &Case) -> Vec<Case> {
         if *g != 0 {
             out.push(Case { src: Src::Golden(0), ..c.clone() });
             out.push(Case { src: Src::Golden(*g / 2), ..c.clone() });
+        }
+    }
+    if let Src::Text(tc) = &c.src {
+        for len in [tc.len / 2, tc.len.saturating_sub(1), tc.len.saturating_sub(4)] {
+            if len != tc.len {
+                out.push(Case { src: Src::Text(TextCase { len, ..tc.clone() }), ..c.clone() });
+            }
+        }
+        if tc.align != 0 {
+            out.push(Case { src: Src::Text(TextCase { align: 0, ..tc.clone() }), ..c.clone() });
+        }
+        if tc.bom {
+            out.push(Case { src: Src::Text(TextCase { bom: false, ..tc.clone() }), ..c.clone() });
+        }
+        if tc.alpha != 0 {
+            out.push(Case { src: Src::Text(TextCase { alpha: 0, ..tc.clone() }), ..c.clone() });
+        }
+        // the record list of a generated .icy file, once its text is short
+        if let Some((Format::Icy, slot)) = text_slot(t, tc) {
+            if tc.len <= 600 && c.muts.is_empty() {
+                out.push(Case { src: Src::Chunks(textfield::icy_chunks(slot, &textfield::text(tc))), ..c.clone() });
+            }
         }
     }
     // then self-contained forms: a record list for IcyDraw containers, raw bytes otherwise (only when short enough to read)
@@ -546,6 +613,23 @@ fn target_cases(ti: usize) -> BoxedStrategy<Case> {
         // (a)-(e) on golden files
         opts.push((12, (0..n as u16, muts()).prop_map(move |(g, muts)| Case { target, src: Src::Golden(g), inner: vec![], muts }).boxed()));
     }
+    if !text_formats(t).is_empty() {
+        // a valid file generated around a text field: length x alphabet x alignment in every text-carrying position
+        let len = prop_oneof![
+            6 => prop::sample::select(textfield::LENGTHS[..11].to_vec()),
+            3 => 0u32..=300,
+            3 => 120u32..=135,
+            4 => 248u32..=264,
+            1 => 1000u32..=1100,
+            1 => Just(70000u32),
+        ];
+        opts.push((
+            3,
+            (any::<u8>(), len, 0u8..textfield::ALPHABETS, 0u8..4, prop::bool::weighted(0.3), prop::option::weighted(0.1, set()))
+                .prop_map(move |(slot, len, alpha, align, bom, m)| Case { target, src: Src::Text(TextCase { slot, len, alpha, align, bom }), inner: vec![], muts: m.into_iter().collect() })
+                .boxed(),
+        ));
+    }
     // (f) random bytes, optionally in front of a SAUCE trailer (e)
     opts.push((2, (vec(any::<u8>(), 0..=512), with_sauce()).prop_map(move |(b, m)| raw(b, m)).boxed()));
     if let Some(emu) = t.emu {
@@ -648,6 +732,7 @@ fn systematic(thorough: bool) -> Vec<Case> {
             icy_layer_cases(ti, &mut out);
             icy_combo_cases(ti, &mut out);
         }
+        text_field_cases(ti, thorough, &mut out);
         let g = group(t.group);
         for (gi, gold) in g.iter().enumerate() {
             let len = gold.bytes.len();
@@ -934,6 +1019,40 @@ fn icy_combo_cases(ti: usize, out: &mut Vec<Case>) {
     }
 }
 
+/// The text-field table: every slot of the target's text-carrying formats x length {0, 1, 127..130, 255..258, 1000, 70000}
+/// (fixed-size fields: 0, 1, size-1, size, size+1) x 7 alphabets x alignment 0..=3 (x with/without BOM for ANSI control strings).
+/// The quick tier takes the 70000-byte texts with alignment 0 only and, for the loaders that merely share the ANSI parser,
+/// the lengths 0, 257 and 1000.
+fn text_field_cases(ti: usize, thorough: bool, out: &mut Vec<Case>) {
+    let t = &TARGETS[ti];
+    let mut base = 0usize;
+    for f in text_formats(t) {
+        for slot in 0..textfield::slots(f) {
+            let lens: Vec<u32> = match textfield::field_size(f, slot) {
+                Some(n) => vec![0, 1, n as u32 - 1, n as u32, n as u32 + 1],
+                None if f == Format::Ansi && t.name != "ans" && !thorough => vec![0, 257, 1000],
+                None => textfield::LENGTHS.to_vec(),
+            };
+            for len in lens {
+                for alpha in 0..textfield::ALPHABETS {
+                    for align in 0..4u8 {
+                        if len == 70000 && align != 0 && !thorough {
+                            continue;
+                        }
+                        for bom in [false, true] {
+                            if bom && f != Format::Ansi {
+                                continue;
+                            }
+                            out.push(Case { target: ti as u8, src: Src::Text(TextCase { slot: (base + slot) as u8, len, alpha, align, bom }), inner: vec![], muts: vec![] });
+                        }
+                    }
+                }
+            }
+        }
+        base += textfield::slots(f);
+    }
+}
+
 /// selector that `pick` maps onto index i of n
 fn sel_of(i: usize, n: usize) -> u16 {
     ((i * 65536 + 32768) / n.max(1)).min(65535) as u16
@@ -986,11 +1105,18 @@ fn main() {
          every IcyDraw record under every other keyword, hand-written IcyDraw layer / continuation records cut at every length, conjunctions of record-level edits (layer role x extreme layer size / \
          picture header {0,-1,1,0x7FFFFFFF} x continuation record {none, empty, 1 byte, cells, picture bytes}, continuation records for every layer index incl. layers of the other role, on hand-written \
          and golden record lists), every number of every palette text (and of the ICE palette inside .icy) replaced by magnitudes up to 2^64 and a 30-digit number, header lines with such numbers inserted, \
-         every 1-byte file per loader and every 2-byte file for seq/ata. \
+         every 1-byte file per loader and every 2-byte file for seq/ata; the text-field table: valid files generated around a text of length {0,1,127..130,255..258,1000,70000} x alphabet \
+         {ASCII, 2-, 3-, 4-byte UTF-8, control characters, separators, mixed} x alignment 0..3 in every text-carrying position (palette title/author/description/colour name/free lines of the five \
+         formats, .icy PALETTE / layer title / font name / SAUCE record, SAUCE title/author/group/comments/font name behind content, TDF font name, OSC 8/0/2/4, APS and DCS strings with and without BOM); \
+         a share of every generated part draws from the same construction. \
          Non-trivial: the loader got past its magic / minimum-length check: it returned Ok with content (a buffer from non-empty input; for IcyDraw a document with layers; Some(sauce); >= 1 colour), \
          or it returned an error that is not one of the magic/length errors and differs from the error for the header bytes alone. Distinct by hash of the case.",
     );
-    eng.assume("release profile semantics (overflow-checks off, debug-assertions off), as a user of the shipped crate sees it");
+    if cfg!(debug_assertions) {
+        eng.assume("profile `checked`: release optimisation with overflow checks and debug assertions on, i.e. a panic that only a debug build of a front end would hit counts as well");
+    } else {
+        eng.assume("release profile semantics (overflow-checks off, debug-assertions off), as a user of the shipped crate sees it");
+    }
     eng.assume("file names always carry an extension (Buffer::from_bytes unwraps it); PaletteFormat::Ase is not a loader (todo!() for every input) and is not called");
     eng.assume("hangs and memory growth are C03's subject: timeouts and heap-cap hits (2 GiB, e.g. an IcyDraw layer record with width 0x7FFFFFFF) are counted as inconclusive, not as violations (heapcap_is_violation(false) on every part); numbers in generated terminal streams are capped at 999 so that cursor movement cannot allocate gigabytes of rows; sixel decode threads are given the time parse_with_parser gives them");
     let thorough = eng.is_thorough();
